@@ -20,7 +20,26 @@ from .common import load_configs, guarded, TRUSTED
 from . import scanners
 
 PID = 'C18'
-STD_ALLOW = ('std::time::Instant::now', 'std::time::Instant::elapsed')
+# std / core::time callees known neither to allocate nor to panic (arithmetic on Instant / Duration with `+`, `-`, `*`
+# panics on overflow and is therefore *not* listed; the saturating / checked forms are)
+STD_ALLOW = ('std::time::Instant::now', 'std::time::Instant::elapsed', 'std::time::Instant::duration_since',
+             'std::time::Instant::saturating_duration_since', 'std::time::Instant::checked_duration_since',
+             'std::time::Instant::checked_add', 'std::time::Instant::checked_sub')
+STD_ALLOW_TRAITS = ('core::cmp::PartialEq', 'core::cmp::Eq', 'core::cmp::PartialOrd', 'core::cmp::Ord', 'core::clone::Clone',
+                    'core::hash::Hash', 'core::fmt::Debug', 'core::default::Default')
+# core callees that may panic although they are not calls into core::panicking at the call site
+CORE_MAY_PANIC = ('core::time::Duration::from_secs_f32', 'core::time::Duration::from_secs_f64', 'core::time::Duration::mul_f32',
+                  'core::time::Duration::mul_f64', 'core::time::Duration::div_f32', 'core::time::Duration::div_f64',
+                  'core::slice::<impl [T]>::copy_from_slice', 'core::slice::<impl [T]>::clone_from_slice', 'core::slice::<impl [T]>::split_at',
+                  'core::slice::<impl [T]>::split_at_mut', 'core::slice::<impl [T]>::swap', 'core::slice::<impl [T]>::chunks',
+                  'core::slice::<impl [T]>::chunks_exact', 'core::slice::<impl [T]>::windows', 'core::str::<impl str>::split_at',
+                  'core::cmp::Ord::clamp', 'core::cell::RefCell::<T>::borrow', 'core::cell::RefCell::<T>::borrow_mut',
+                  'core::iter::traits::iterator::Iterator::step_by', 'core::char::from_digit', 'core::unreachable')
+PANICKING_TIME_TRAITS = ('core::ops::arith::Add', 'core::ops::arith::Sub', 'core::ops::arith::Mul', 'core::ops::arith::Div',
+                         'core::ops::arith::AddAssign', 'core::ops::arith::SubAssign', 'core::ops::arith::MulAssign', 'core::ops::arith::DivAssign')
+# trait methods that cannot panic for the receivers met here (comparisons, clone, hash, fmt, default) when left unmodelled
+SAFE_UNMODELLED_TRAITS = ('core::cmp::PartialEq', 'core::cmp::Eq', 'core::cmp::PartialOrd', 'core::cmp::Ord', 'core::clone::Clone',
+                          'core::hash::Hash', 'core::hash::Hasher', 'core::default::Default')
 DEP_ALLOW = {'num_enum': ('num_enum::TryFromPrimitive::try_from_primitive',)}
 COPY_TYPES = ['RawShortMessage', 'StructuredShortMessage', 'ControlChange14BitMessage', 'ParameterNumberMessage',
               'ControlChange14BitMessageScanner', 'ParameterNumberMessageScanner', 'PollingParameterNumberMessageScanner',
@@ -96,13 +115,28 @@ def allocation(chk, Fs):
             if c['local'] or c.get('resolved_local') or kr in ('helgoboss_midi', 'core'):
                 continue
             if kr == 'std':
-                if path in STD_ALLOW or 'std::time::Instant' in path or 'core::time::Duration' in path:
+                tr = c.get('trait')
+                sub_instants = tr == 'core::ops::arith::Sub' and len([a for a in c['args'] if a.get('path') == 'std::time::Instant']) == 2
+                if path in STD_ALLOW or c['path'] in STD_ALLOW or (tr in STD_ALLOW_TRAITS and 'std::time::Instant' in path) or sub_instants:
                     continue
             if kr in DEP_ALLOW and (path in DEP_ALLOW[kr] or c['path'] in DEP_ALLOW[kr]):
                 continue
             if c['krate'] == 'core' and c.get('resolved') is None:
                 continue            # unresolved generic call of a core trait method: resolved at the instantiation, audited there
             offenders.append((site, '%s (crate %s)' % (path, kr)))
+        for site, c, t in calls:
+            if c is None:
+                continue
+            path = c.get('resolved') or c['path']
+            tr = c.get('trait')
+            timey = any(a.get('path') in ('std::time::Instant', 'core::time::Duration') for a in c['args'][:1])
+            sub_instants = tr == 'core::ops::arith::Sub' and len([a for a in c['args'] if a.get('path') == 'std::time::Instant']) == 2
+            if (tr in PANICKING_TIME_TRAITS and timey and not sub_instants) or c['path'] in CORE_MAY_PANIC or path in CORE_MAY_PANIC:
+                if scan.is_serde_generated(F, site[0]):
+                    continue
+                chk.ob('%s/panic/%s/may-panic-callee/%s' % (PID, cfg, site[0]), 'dead panic site', 'refuted', subject=site_subject(F, site),
+                       expected='no call of a library function that panics for some arguments (overflowing time arithmetic etc.)',
+                       found=c['path_args'], why='%s can panic (e.g. on overflow) and its arguments are not shown to be safe' % c['path_args'])
         chk.extra.setdefault('callee_crates', {})[cfg] = by_crate
         groups = {}
         for site, txt in offenders:
@@ -207,6 +241,15 @@ def panics(chk, F, tier):
             continue
         chk.ob('%s/panic/%s/analysis-complete/%s' % (PID, cfg, entry), 'dead panic site', 'unproven',
                subject=site_subject(F, site) if site else fn_subject(F, entry), why='abstract interpretation gave up on a path: %s' % why)
+    # callees the interpreter has no model for: unless they are of a kind that cannot panic, fail closed
+    for pa, (path, tr, kr, resolved, caller) in sorted(getattr(Aud, 'unmodelled_info', {}).items()):
+        if scan.is_serde_generated(F, caller) or path.startswith('core::fmt::') or path.startswith('core::hash::'):
+            continue
+        if tr in SAFE_UNMODELLED_TRAITS:
+            continue
+        chk.ob('%s/panic/%s/unmodelled-callee/%s' % (PID, cfg, pa), 'dead panic site', 'unproven', subject=fn_subject(F, caller),
+               expected='every callee is either modelled or of a kind that cannot panic', found=pa,
+               why='no model for %s (crate %s): cannot show that it does not panic' % (pa, kr))
     # panic outcomes at sites that were not statically enumerated would be an enumeration bug: fail closed
     enumerated = {s for s, k, t in sites}
     for site in Aud.panics:
